@@ -85,9 +85,9 @@ DescIdx(wv) == IF \E i \in 1..Len(Desc) : Desc[i].k = wv
                THEN CHOOSE i \in 1..Len(Desc) : Desc[i].k = wv ELSE 0
 
 \* requests this specification speaks about (the standard handler implements them; everything else must be STALLed)
-GET_STATUS == 0  SET_ADDRESS == 5  GET_DESCRIPTOR == 6  GET_CONFIGURATION == 8  SET_CONFIGURATION == 9  SET_ISOCH_DELAY == 49
+GET_STATUS == 0  SET_ADDRESS == 5  GET_DESCRIPTOR == 6  SET_CONFIGURATION == 9  SET_ISOCH_DELAY == 49
 NoDataStage(r) == Standard(r) /\ r.br \in {SET_ADDRESS, SET_CONFIGURATION, SET_ISOCH_DELAY}
-Excluded(r) == Standard(r) /\ r.br \in {48}          \* SET_SEL (OUT data stage): not judged (Env never sends it)
+Excluded(r) == Standard(r) /\ r.br \in {8, 48}       \* GET_CONFIGURATION, SET_SEL: stated by no listed property -> not judged (Env never sends them)
 
 \* what an IN request in the data stage must be answered with: STALL or a data packet with these bytes
 StallAns == [stall |-> TRUE, b |-> <<>>]
@@ -97,11 +97,10 @@ DataAnswer(r) ==
     ELSE IF r.br = GET_DESCRIPTOR
          THEN IF DescIdx(r.wv) = 0 THEN StallAns ELSE DataAns(Prefix(Desc[DescIdx(r.wv)].b, r.wl))
     ELSE IF r.br = GET_STATUS THEN DataAns(<<0, 0>>)
-    ELSE IF r.br = GET_CONFIGURATION THEN DataAns(<<cfg>>)        \* [USB3.2 9.4.2] the current configuration value
     ELSE StallAns
 StatusAnswer(r) ==
     IF ~Standard(r) THEN "stall"
-    ELSE IF r.br \in {GET_STATUS, GET_DESCRIPTOR, GET_CONFIGURATION, SET_ADDRESS, SET_CONFIGURATION, SET_ISOCH_DELAY} THEN "ack"
+    ELSE IF r.br \in {GET_STATUS, GET_DESCRIPTOR, SET_ADDRESS, SET_CONFIGURATION, SET_ISOCH_DELAY} THEN "ack"
     ELSE "stall"
 
 -----------------------------------------------------------------------------
